@@ -639,6 +639,57 @@ var BoxTypes = []string{"auxC", "auxl", "av01", "av1C", "avcC", "CCDT", "CCTP", 
 // SmallBoxFiles enumerates files in which one box of every known type with a
 // payload of 0..maxLen bytes (zeros, ones or 0xFF) sits between well-formed
 // siblings inside meta, moov, the Canon uuid box and at top level.
+// SmallBoxFilesAtEdge: like SmallBoxFiles, with the box under test placed so that its payload ends gap bytes before the
+// end of the first 4 KiB of the file (the reader's buffer): a parser that slices past the bytes it asked for runs out
+// of buffer there instead of silently reading whatever follows.
+func SmallBoxFilesAtEdge(lens, gaps []int, visit func(name string, kind string, data []byte)) {
+	for _, typ := range BoxTypes {
+		for _, n := range lens {
+			for _, gap := range gaps {
+				payload := make([]byte, n)
+				for i := range payload {
+					payload[i] = 0x01
+				}
+				for _, where := range []string{"meta", "moov", "canon"} {
+					build := func(pad int) ([]byte, *Box) {
+						tb := &Box{Type: typ, Data: payload}
+						first := &Box{Type: "free", Data: spaces(pad)}
+						sib := &Box{Type: "free", Data: make([]byte, 24)}
+						var top []*Box
+						switch where {
+						case "meta":
+							top = []*Box{Ftyp("heic", 0, "mif1", "heic"), {Type: "meta", Full: true, Kids: []*Box{first, tb, sib}}}
+						case "moov":
+							canon := &Box{Type: "uuid", Data: append([]byte{}, UUIDCanon...), Kids: []*Box{sib}}
+							top = []*Box{Ftyp("crx ", 1, "crx ", "isom"), {Type: "moov", Kids: []*Box{first, canon, tb, sib}}}
+						default:
+							canon := &Box{Type: "uuid", Data: append([]byte{}, UUIDCanon...), Kids: []*Box{first, tb, sib}}
+							top = []*Box{Ftyp("crx ", 1, "crx ", "isom"), {Type: "moov", Kids: []*Box{canon, sib}}}
+						}
+						top = append(top, &Box{Type: "mdat", Data: make([]byte, 64)})
+						var o []byte
+						for _, b := range top {
+							o = append(o, b.Serialise(len(o))...)
+						}
+						return o, tb
+					}
+					_, tb := build(0)
+					pad := 4096 - gap - (tb.PayloadStart + n)
+					for pad < 0 {
+						pad += 4096
+					}
+					o, _ := build(pad)
+					kind := "cr3"
+					if where == "meta" {
+						kind = "heif"
+					}
+					visit(fmt.Sprintf("%s-in-%s-len%d-gap%d", typ, where, n, gap), kind, o)
+				}
+			}
+		}
+	}
+}
+
 func SmallBoxFiles(maxLen int, visit func(name string, kind string, data []byte)) {
 	fills := []byte{0x00, 0x01, 0xFF}
 	for _, typ := range BoxTypes {
